@@ -15,7 +15,7 @@ RULE = ("`hdwallet new --vanity-prefix P [-j N] [-n L] [--vanity-password/--vani
         "lines+scripts; non-trivial = address prefix compared")
 REQUIRED = (["digit-%s" % d for d in "0123456789abcdef"] + ["upper-%s" % d for d in "ABCDEF"] + ["prefix-2-digits", "prefix-mixed-case", "j0", "j1",
             "j2", "j16", "selector-default", "selector-account-index", "selector-hd-path", "vanity-password", "with-delay-script",
-            "non-hex-refused", "odd-digit-count", "even-digit-count", "L12", "L24", "winner-is-a-worker-thread", "match-after>=2-attempts"])
+            "non-hex-refused", "odd-digit-count", "even-digit-count", "L12", "L24", "winner-is-a-worker-thread", "match-after>=2-attempts", "stuck-source-keeps-searching"])
 CAPS = {0: 200, 1: 800, 2: 12000, 3: 190000}
 
 
@@ -98,15 +98,48 @@ def judge(case, obs):
     return v
 
 
-JUDGES = {"vanity": judge}
+def judge_stuck(case, obs):
+    """The entropy source is scripted to return the same bytes for ever, and the phrase of those bytes does not have the prefix.
+    A correct search can only keep searching (it is stopped by the request cap, which is the expected, *held* outcome here);
+    giving up and printing a phrase anyway is a violation."""
+    o = obs[0]
+    xm = case["x"]
+    v = V()
+    if "signal" in o or "hang" in o or o.get("exit") == 101:
+        return v.bad("C18/stuck-source/%s" % ("panic" if o.get("exit") == 101 else "abnormal"), "vanity search ended abnormally: %s" % (o.get("stderr", "")[-150:]))
+    if "exit" not in o:
+        v.nontrivial = False
+        return v.bucket("watchdog-inconclusive")
+    if o["exit"] == 97:
+        n = len([r for r in o.get("entropy", []) if r["tag"] == "E"])
+        return v.bucket("stuck-source-keeps-searching").bucket("stuck-source-attempts>=%d" % (10000 if n >= 10000 else 1000 if n >= 1000 else 0))
+    if o["exit"] == 0:
+        words = o["stdout"].strip().split(" ")
+        try:
+            bip39.decode_words(words)
+            addr = eth.address_of_key(eth.bip32_derive(bip39.seed(words, ""), eth.default_path(0)))[2:].lower()
+        except ValueError:
+            addr = "<invalid phrase>"
+        if not addr.startswith(xm["prefix"][2:].lower()):
+            return v.bad("C18/stuck-source/gave-up-with-non-matching-phrase",
+                         "after %d identical candidates the search printed a phrase whose address 0x%s lacks the prefix %s" % (
+                             len(o.get("entropy", [])), addr, xm["prefix"]))
+        return v.bucket("stuck-source-matched")
+    # an ordinary error ("gave up after N attempts") would be conforming
+    return v.bucket("stuck-source-error-exit")
+
+
+judge_stuck.handles_abnormal = True
+JUDGES = {"vanity": judge, "stuck": judge_stuck}
 
 
 def shards(tier, seed):
     T = tier == "thorough"
     return ([{"name": "singles-%d" % i, "part": i, "reps": 8 if T else 2, "exhaustive": "all 16 single digits and the 6 upper-case letters"} for i in range(4)]
             + [{"name": "multi-%d" % i, "count": 80 if T else 8, "three": T} for i in range(8)]
-            + [{"name": "winners-%d" % i, "count": 60 if T else 6} for i in range(4)]
-            + [{"name": "nonhex"}])
+            + [{"name": "winners-%d" % i, "count": 400 if T else 60} for i in range(4)]
+            + [{"name": "nonhex"}, {"name": "stuck-0", "j": 1, "cap": 40000 if T else 10000}, {"name": "stuck-1", "j": 0, "cap": 40000 if T else 10000},
+               {"name": "stuck-2", "j": 16, "cap": 300000 if T else 60000}])
 
 
 def _case(rng, prefix, j, L=12, sel=None, password="", delay=None, profile="release", cls="search"):
@@ -168,6 +201,12 @@ def gen(shard, rng, tier):
         for _ in range(shard["count"]):
             d = rng.choice("0123456789abcdefABCDEF") + rng.choice(["", rng.choice("0123456789abcdef")])
             yield _case(rng, "0x" + d, 16, delay=_rand_delay(rng, 16) or "1:2000,2:2000,3:2000", cls="winners")
+    elif name.startswith("stuck-"):
+        # all-zero entropy -> "abandon ... about" -> m/44'/60'/0'/0/0 = 0x9858EfFD232B4033E47d90003D41EC34EcaEda94
+        for prefix in ("0x0", "0xabc"):
+            yield {"j": "stuck", "profile": "release", "x": {"cls": "stuck-source", "prefix": prefix, "j": shard["j"]},
+                   "steps": [{"cli": {"argv": ["new", "--vanity-prefix", prefix, "-j", str(shard["j"])], "ent": {"MODE": "zero", "CAP": shard["cap"]}, "timeout": 900}}]}
+            break
     else:
         for p in ("0xg", "0xG1", "0x1g", "0x-1", "0x 1", "0xx", "0x0x1", "0x1.", "0xé", "0x1١", "0x1_", "0x+1", "0xAG", "0xabcdefg"):
             for prof in ("release", "dev"):
